@@ -698,12 +698,12 @@ Proof.
   - now apply is_dir_at_true.
 Qed.
 
-Lemma rename_full s p q f : WF s -> wf_op s (Rename p q) = true ->
+Lemma rename_full s p q f : WF s -> wf_op_ord s (Rename p q) = true ->
   lookup s (normalize_path p) = Some f -> normalize_path p <> normalize_path q ->
   snd (m_rename s p q) = ROk /\ WF (fst (m_rename s p q)) /\
   moved (normalize_path p) (normalize_path q) s (fst (m_rename s p q)).
 Proof.
-  intros W Hwf Hl Eon. cbn [wf_op] in Hwf. apply andb_true_iff in Hwf as [Hn Hwf]. apply andb_true_iff in Hn as [Hn Hroot].
+  intros W Hwf Hl Eon. cbn [wf_op_ord] in Hwf. apply andb_true_iff in Hwf as [Hn Hwf]. apply andb_true_iff in Hn as [Hn Hroot].
   apply andb_true_iff in Hn as [Hnp Hnq].
   set (old := normalize_path p) in *. set (new := normalize_path q) in *.
   assert (Ho : canon old) by now apply canon_normalize. assert (Hnc : canon new) by now apply canon_normalize.
@@ -721,12 +721,12 @@ Proof.
   exact (rename_core old new f Ho Hnc Hroot Hnr Eon Hb1 Hb2 s W Hl Hfree Hpnew).
 Qed.
 
-Lemma WF_rename s p q : WF s -> wf_op s (Rename p q) = true ->
+Lemma WF_rename s p q : WF s -> wf_op_ord s (Rename p q) = true ->
   WF (fst (m_rename s p q)) /\ (lookup s (normalize_path p) <> None -> snd (m_rename s p q) = ROk).
 Proof.
   intros W Hwf.
   destruct (lookup s (normalize_path p)) as [f|] eqn:Hl.
-  2:{ unfold m_rename. rewrite Hl. split; [exact W | congruence]. }
+  2:{ unfold m_rename. rewrite Hl. match goal with |- context [if ?c then _ else _] => destruct c end; (split; [exact W | congruence]). }
   destruct (beqb (normalize_path p) (normalize_path q)) eqn:Eon.
   { unfold m_rename. rewrite Hl, Eon. split; [exact W | reflexivity]. }
   apply beqb_neq in Eon. destruct (rename_full s p q f W Hwf Hl Eon) as (Hres & W' & _).
@@ -759,8 +759,8 @@ Proof.
   - intros (rest & [->|[t ->]] & ->); [left; apply app_nil_r | right; apply below_spec; now exists t].
 Qed.
 
-Theorem rename_moves_subtree s p q :
-  WF s -> wf_op s (Rename p q) = true ->
+Theorem rename_moves_subtree_ord s p q :
+  WF s -> wf_op_ord s (Rename p q) = true ->
   let old := normalize_path p in let new := normalize_path q in
   lookup s old <> None -> old <> new ->
   let s' := fst (m_step s (Rename p q)) in
@@ -786,13 +786,13 @@ Proof.
 Qed.
 
 (* the facts the precondition of a real Rename provides *)
-Lemma rename_pre_facts s p q f : WF s -> wf_op s (Rename p q) = true ->
+Lemma rename_pre_facts s p q f : WF s -> wf_op_ord s (Rename p q) = true ->
   lookup s (normalize_path p) = Some f -> normalize_path p <> normalize_path q ->
   let old := normalize_path p in let new := normalize_path q in
   canon old /\ canon new /\ old <> s_slash /\ new <> s_slash /\ below old new = false /\ below new old = false /\
   (forall k r, lookup s k = Some r -> below new k = false).
 Proof.
-  intros W Hwf Hl Eon old new. cbn [wf_op] in Hwf. apply andb_true_iff in Hwf as [Hn Hwf]. apply andb_true_iff in Hn as [Hn Hroot].
+  intros W Hwf Hl Eon old new. cbn [wf_op_ord] in Hwf. apply andb_true_iff in Hwf as [Hn Hwf]. apply andb_true_iff in Hn as [Hn Hroot].
   apply andb_true_iff in Hn as [Hnp Hnq]. fold old new in Hl, Eon, Hwf, Hroot.
   assert (Ho : canon old) by now apply canon_normalize. assert (Hnc : canon new) by now apply canon_normalize.
   apply negb_true_iff, beqb_neq in Hroot.
